@@ -1,6 +1,6 @@
 (* Extraction of the C17 pending-call model.  ExtrOcamlBasic only. *)
 Require Extraction.
 Require Import ExtrOcamlBasic.
-From DV Require Import PendingCall.Pending PendingCall.BlockTime.
+From DV Require Import PendingCall.Pending PendingCall.BlockTime PendingCall.Threads.
 Extraction Language OCaml.
-Extraction "model_pending.ml" init init_at step step1 run run1 next_serial block_with block_timed effective_timeout elapsed_ms give_up.
+Extraction "model_pending.ml" init init_at step step1 run run1 next_serial block_with block_timed effective_timeout elapsed_ms give_up two_threads.
